@@ -102,7 +102,7 @@ CLAIMED["C02"] = (
     "The denotational reading of the directive (FlowSemModel: each parameter receives what the unique provider of its type returned) is proved to be exactly what the generated jobs do: at its fuel it assigns to every job that runs, "
     "in any execution, an outcome, and that outcome is the job's result, assigned values and call with its arguments (C02_semantics_is_the_generated_code, C02_results_are_the_dataflow; soundness for every fuel, completeness by "
     "monotonicity and induction over the log order). Every flow the validator model of C14 accepts has unique providers (C02_accepted_flows_qualify). "
-    "Partial on one clause, labelled so: independence of the listing order of the tasks is exercised (the generator shuffles tasks) but not proved. Tie: job graph of every generated function vs jdeps; "
+    "Independence of the listing order is proved too: two listings of the same tasks have the same semantics up to the renaming of task indices - every value, the Results, every failure (C02_listing_order_independent). Tie: job graph of every generated function vs jdeps; "
     "calls with argument terms, results, returned error of every execution vs the model; the operational and the denotational model are cross-checked on every case.",
     GEN_NOTE, "DESIGN.md §7 C02")
 CLAIMED["C15"] = (
